@@ -60,6 +60,18 @@ def check(prog, run):
                 run.violation("opcode-range", construct, "operation code %#x outside 0..255" % val, file, line)
                 continue
             byname.setdefault(name, []).append((s, val, line))
+            # the OpCode object carries a name of its own (cmd.opcode.name): it is exposed too
+            if isinstance(op, Instance):
+                try:
+                    own = prog.I.get_attr(op, "name", None, _F())
+                except PyRaise:
+                    own = None
+                if isinstance(own, str) and own != name and own in ref.OPCODES and ref.OPCODES[own] != val:
+                    run.violation("opcode-object-name", construct,
+                                  "%s.%s is an OpCode object that calls itself %r and has the value %#04x; T10 assigns %#04x to %s"
+                                  % (s, name, own, val, ref.OPCODES[own], own), file, line)
+                elif isinstance(own, str):
+                    run.ok("opcode-object-name", construct, nontrivial=own != name)
             if name in ref.OPCODES:
                 if val == ref.OPCODES[name]:
                     run.ok("opcode-value", construct, {"lib": val, "ref": ref.OPCODES[name], "at": "%s:%s" % (file, line)})
